@@ -295,6 +295,25 @@ export function gen(rng, params, mode) {
     const src = decls.map(tsOfDecl).join("\n") + `\nparse.buildParsers<{ R: (${tsOf(x)}) extends (${tsOf(y)}) ? "yes" : "no" }>();\n`;
     return [A("sub"), A(String(counter++)), decls, x, y, src];
   }
+  if (rng.chance(1, 12)) {
+    // an index signature on the LEFT against a union of object types that split a key the left does NOT declare, by value or by
+    // presence (`{ [k: string]: number }` against `{ a: number } | { a?: null }`, `{ [k: string]: 1 | 2 }` against
+    // `{ a?: 1 } | { a?: 2 }`): the narrowing of an undeclared key has to survive from one member of the right to the next
+    const doms = [[lit("n", "1"), lit("n", "2"), lit("n", "3")], [lit("s", "a"), lit("s", "b"), lit("s", "c")], [lit("b", A("true")), lit("b", A("false"))]];
+    const dom = rng.pick(doms), k = 2 + (dom.length > 2 ? rng.below(2) : 0), part = dom.slice(0, k);
+    const whole = dom.length === 2 && rng.chance(1, 2) ? A("boolean") : [A("union"), ...part];
+    const wide = rng.chance(1, 4) ? (dom === doms[0] ? A("number") : dom === doms[1] ? A("string") : A("boolean")) : whole;
+    const declared = rng.chance(1, 3) ? [["b", A(rng.chance(1, 2) ? "true" : "false"), part[0]]] : [];
+    const x = [A("obj"), declared, [A("string"), wide]];
+    const key = rng.pick(["a", "zz"]);
+    const ms = part.map((v, i) => [A("obj"), [[key, A(i > 0 && rng.chance(1, 4) ? "false" : "true"), v]], A("none")]);
+    if (wide !== whole || rng.chance(1, 3)) { ms[0] = [A("obj"), [[key, A("false"), wide]], A("none")]; ms[1] = [A("obj"), [[key, A("true"), A("null")]], A("none")]; }
+    if (rng.chance(1, 4)) ms.pop();
+    let y = ms.length === 1 ? ms[0] : [A("union"), ...ms, ...(rng.chance(1, 4) ? [genLeaf(rng)] : [])];
+    const [l, r] = rng.chance(5, 6) ? [x, y] : [y, x];
+    const src = decls.map(tsOfDecl).join("\n") + `\nparse.buildParsers<{ R: (${tsOf(l)}) extends (${tsOf(r)}) ? "yes" : "no" }>();\n`;
+    return [A("sub"), A(String(counter++)), decls, l, r, src];
+  }
   if (rng.chance(1, 10)) {
     // intersections of unions that SHARE a named type (`(A | C) & (A | D)`): both diagrams then have the same root atom, the
     // one arm of the diagram operations that inline types (a fresh atom each) never reach; also at a property position
